@@ -1,5 +1,691 @@
+import ChemProofs.Props.C15
 import ChemProofs.Model.Brain
 import ChemProofs.Spec.IsoDist
+/-
+C09 — shape of the coarse (BRAIN) pattern and resolution of the requested peak count.
+
+Everything below is fully proved (no `_partial` results).  `V := maxVariants c`.
+
+1. request resolution
+   * `resolve_fixed`         n ≥ 1            ⇒ `resolveOrder (.fixed n) = min (n-1) V`      (the `n ≤ i32::MAX` hypothesis is not needed)
+   * `resolve_fixed_nonpos`  n ≤ 0, 0 ≤ V     ⇒ `resolveOrder (.fixed n) = 0`
+   * `resolve_guess`         1 ≤ maxIter, 1 ≤ guessCap ⇒ `resolveOrder .guess = min (min poissonN guessCap) V`
+   * `resolve_guess_cap`     … ⇒ `resolveOrder .guess ≤ guessCap`
+   * `resolve_percent`       1 ≤ maxIter ⇒ `.percent f` resolves like `.fixed (poissonN … f …)`; `resolve_percent_val` explicit value
+   * `resolve_bounds`        0 ≤ V ⇒ `0 ≤ resolveOrder req ≤ V` for every request and every choice of constants
+   * `resolve_toNat`         the `toNat` in `brainVariants` loses nothing
+2. cut loop: `cutLoop_sublist`, `cutLoop_keeps`, `cutLoop_true` (= filter once a real peak was seen),
+   `cutLoop_leading` (takeWhile ++ filter of dropWhile), `cutLoop_head`, `cutLoop_nonempty`, `cutLoop_total`
+3. sort: `sortByMz_perm`, `sortByMz_sorted`, `sortByMz_length`, `sortByMz_mem`, `sortByMz_id_of_sorted`
+   (identity on weakly increasing input: the sort is stable), `sortByMz_id` (strictly increasing), `sortByMz_total`
+4. output: `rawVariants_ok` / `rawVariants_length` (`raw.length = order + 1`, proved from `espOfPs_length`,
+   `updateEsp_length`, `mapRes_length`, no hypothesis), `variantsWith_eq`, `variantsWith_ok_iff`,
+   `variantsWith_nonempty`, `variantsWith_shape`, `variantsWith_all`, `brainVariants_ok`, `brainVariants_shape`
+5. intensities: `sum_div_self`, `rawVariants_total` (= 1 if `prob.sum ≠ 0`), `variantsWith_total`
+   (= 1 − share of the omitted variants)
+6. examples by `decide` / `decide +kernel` (kernel evaluation only, no extra axioms)
+-/
 namespace Chem
-theorem placeholder_C09 : True := trivial
+
+/-! ### 1. request resolution -/
+
+section Resolve
+variable (K : BrainConsts) (c : BComp)
+
+theorem beq_guess_fixed (n : Int) : (PeakReq.fixed n == PeakReq.guess) = false := by
+  rw [beq_eq_false_iff_ne]; intro h; cases h
+
+theorem beq_guess_percent (f : Rat) : (PeakReq.percent f == PeakReq.guess) = false := by
+  rw [beq_eq_false_iff_ne]; intro h; cases h
+
+theorem beq_guess_guess : (PeakReq.guess == PeakReq.guess) = true := by
+  rw [beq_iff_eq]
+
+theorem updateOrder_nonneg (V x : Int) (hx : 0 ≤ x) : updateOrder V x = min x V := by
+  unfold updateOrder
+  have : (x == -1) = false := by rw [beq_eq_false_iff_ne]; omega
+  simp only [this]; rfl
+
+theorem resolveOrder_fixed_eq (n : Int) :
+    resolveOrder K c (.fixed n) = min (max (max (n - 1) (-2147483648)) 0) (maxVariants c) := by
+  unfold resolveOrder
+  simp only [beq_guess_fixed]
+  show updateOrder (maxVariants c) (numPeaks K c (.fixed n)) = _
+  rw [updateOrder_nonneg]
+  · rfl
+  · show 0 ≤ max (max (n - 1) (-2147483648)) 0
+    omega
+
+theorem resolve_fixed (n : Int) (hn : 1 ≤ n) (_hn' : n ≤ 2147483647) :
+    resolveOrder K c (.fixed n) = min (n - 1) (maxVariants c) := by
+  rw [resolveOrder_fixed_eq]; omega
+
+theorem resolve_fixed_nonpos (hV : 0 ≤ maxVariants c) (n : Int) (hn : n ≤ 0) :
+    resolveOrder K c (.fixed n) = 0 := by
+  rw [resolveOrder_fixed_eq]; omega
+
+theorem reqOfInt_ne_zero (n : Int) (h : n ≠ 0) : reqOfInt n = .fixed n := by
+  unfold reqOfInt
+  have : (n == 0) = false := by rw [beq_eq_false_iff_ne]; exact h
+  simp only [this]; rfl
+
+theorem resolveOrder_guess_eq :
+    resolveOrder K c .guess =
+      updateOrder (maxVariants c) (numPeaks K c (reqOfInt (numPeaks K c .guess)) + 1) := by
+  unfold resolveOrder
+  simp only [beq_guess_guess]; rfl
+
+/-- `guess`: the Poisson estimate at `guessFraction`, capped by `guessCap` and by the number of variants -/
+theorem resolve_guess (hM : 1 ≤ K.maxIter) (hC : 1 ≤ K.guessCap) :
+    resolveOrder K c .guess =
+      min (min (poissonN (monoMassOf c K.one) K.lambdaFactor K.guessFraction K.maxIter : Int) K.guessCap)
+        (maxVariants c) := by
+  have hP := (poissonN_range (monoMassOf c K.one) K.lambdaFactor K.guessFraction K.maxIter hM).1
+  rw [resolveOrder_guess_eq]
+  have hg : numPeaks K c .guess =
+      min (poissonN (monoMassOf c K.one) K.lambdaFactor K.guessFraction K.maxIter : Int) K.guessCap := rfl
+  generalize poissonN (monoMassOf c K.one) K.lambdaFactor K.guessFraction K.maxIter = P at *
+  rw [hg, reqOfInt_ne_zero _ (by omega)]
+  show updateOrder _ (max (max (min (P : Int) K.guessCap - 1) (-2147483648)) 0 + 1) = _
+  rw [updateOrder_nonneg _ _ (by omega)]
+  omega
+
+theorem resolve_guess_cap (hM : 1 ≤ K.maxIter) (hC : 1 ≤ K.guessCap) :
+    resolveOrder K c .guess ≤ K.guessCap := by
+  rw [resolve_guess K c hM hC]; omega
+
+theorem resolveOrder_percent_eq (f : Rat) :
+    resolveOrder K c (.percent f) =
+      min (max ((poissonN (monoMassOf c K.one) K.lambdaFactor f K.maxIter : Int) - 1) 0) (maxVariants c) := by
+  unfold resolveOrder
+  simp only [beq_guess_percent]
+  show updateOrder (maxVariants c) (numPeaks K c (.percent f)) = _
+  rw [updateOrder_nonneg]
+  · rfl
+  · show 0 ≤ max ((poissonN (monoMassOf c K.one) K.lambdaFactor f K.maxIter : Int) - 1) 0
+    omega
+
+/-- a request by signal fraction = a fixed request for the Poisson peak-count estimate -/
+theorem resolve_percent (hM : 1 ≤ K.maxIter) (_hM' : K.maxIter ≤ 2147483647) (f : Rat) :
+    resolveOrder K c (.percent f) =
+      resolveOrder K c (.fixed (poissonN (monoMassOf c K.one) K.lambdaFactor f K.maxIter)) := by
+  have hP := (poissonN_range (monoMassOf c K.one) K.lambdaFactor f K.maxIter hM).1
+  rw [resolveOrder_percent_eq, resolveOrder_fixed_eq]
+  omega
+
+/-- explicit form of the `percent` resolution -/
+theorem resolve_percent_val (hM : 1 ≤ K.maxIter) (f : Rat) :
+    resolveOrder K c (.percent f) =
+      min ((poissonN (monoMassOf c K.one) K.lambdaFactor f K.maxIter : Int) - 1) (maxVariants c) := by
+  have hP := (poissonN_range (monoMassOf c K.one) K.lambdaFactor f K.maxIter hM).1
+  rw [resolveOrder_percent_eq]
+  omega
+
+/-- every request (including the `i32` extremes, and with no assumption on the constants) resolves
+    to an order in `0 ..= V` -/
+theorem resolve_bounds (hV : 0 ≤ maxVariants c) (req : PeakReq) :
+    0 ≤ resolveOrder K c req ∧ resolveOrder K c req ≤ maxVariants c := by
+  cases req with
+  | fixed n => rw [resolveOrder_fixed_eq]; omega
+  | percent f => rw [resolveOrder_percent_eq]; omega
+  | guess =>
+    rw [resolveOrder_guess_eq]
+    have key : 0 ≤ numPeaks K c (reqOfInt (numPeaks K c .guess)) := by
+      by_cases h0 : numPeaks K c .guess = 0
+      · rw [h0]
+        have : reqOfInt 0 = .guess := rfl
+        rw [this, h0]
+      · rw [reqOfInt_ne_zero _ h0]
+        show 0 ≤ max (max (numPeaks K c .guess - 1) (-2147483648)) 0
+        omega
+    rw [updateOrder_nonneg _ _ (by omega)]
+    omega
+
+/-- in particular `order.toNat` in `brainVariants` loses nothing -/
+theorem resolve_toNat (hV : 0 ≤ maxVariants c) (req : PeakReq) :
+    ((resolveOrder K c req).toNat : Int) = resolveOrder K c req := by
+  have := (resolve_bounds K c hV req).1
+  omega
+
+end Resolve
+
+/-! ### 2. the cut loop -/
+
+theorem cutLoop_sublist (cut : Rat) (l : List Peak) (b : Bool) : (cutLoop cut l b).Sublist l := by
+  induction l generalizing b with
+  | nil => exact List.Sublist.refl _
+  | cons p rest ih =>
+    simp only [cutLoop]
+    split
+    · split
+      · exact (ih _).cons _
+      · exact (ih _).cons_cons _
+    · exact (ih _).cons_cons _
+
+theorem cutLoop_subset (cut : Rat) (l : List Peak) (b : Bool) : ∀ p ∈ cutLoop cut l b, p ∈ l :=
+  fun _ hp => (cutLoop_sublist cut l b).subset hp
+
+theorem cutLoop_length_le (cut : Rat) (l : List Peak) (b : Bool) : (cutLoop cut l b).length ≤ l.length :=
+  (cutLoop_sublist cut l b).length_le
+
+/-- every variant with share `≥ cut` is kept -/
+theorem cutLoop_keeps (cut : Rat) (l : List Peak) (b : Bool) (p : Peak) (hp : p ∈ l) (hc : cut ≤ p.int) :
+    p ∈ cutLoop cut l b := by
+  induction l generalizing b with
+  | nil => cases hp
+  | cons q rest ih =>
+    simp only [cutLoop]
+    rcases List.mem_cons.1 hp with rfl | hp'
+    · have : ¬ p.int < cut := not_lt.2 hc
+      simp only [this, if_false]
+      exact List.mem_cons_self
+    · split
+      · split
+        · exact ih _ hp'
+        · exact List.mem_cons_of_mem _ (ih _ hp')
+      · exact List.mem_cons_of_mem _ (ih _ hp')
+
+/-- once a real peak has been seen the loop is the plain filter `cut ≤ int` -/
+theorem cutLoop_true (cut : Rat) (l : List Peak) :
+    cutLoop cut l true = l.filter (fun p => decide (cut ≤ p.int)) := by
+  induction l with
+  | nil => rfl
+  | cons p rest ih =>
+    simp only [cutLoop, List.filter_cons]
+    by_cases h : p.int < cut
+    · have h' : ¬ cut ≤ p.int := not_le.2 h
+      simp only [h, h', if_true, decide_false, ih]
+      rfl
+    · have h' : cut ≤ p.int := not_lt.1 h
+      simp only [h, h', if_false, decide_true, ih, if_true]
+
+/-- from `hasReal = false`: all peaks up to (not including) the first one with `cut ≤ int` are kept,
+    then exactly the later ones with `cut ≤ int` -/
+theorem cutLoop_leading (cut : Rat) (l : List Peak) :
+    cutLoop cut l false =
+      l.takeWhile (fun p => decide (p.int < cut)) ++
+        (l.dropWhile (fun p => decide (p.int < cut))).filter (fun p => decide (cut ≤ p.int)) := by
+  induction l with
+  | nil => rfl
+  | cons p rest ih =>
+    by_cases h : p.int < cut
+    · simp [cutLoop, h, ih]
+    · have h' : cut ≤ p.int := not_lt.1 h
+      simp [cutLoop, h, h', cutLoop_true]
+
+/-- from `hasReal = false` the first element is always kept -/
+theorem cutLoop_head (cut : Rat) (p : Peak) (rest : List Peak) :
+    ∃ t, cutLoop cut (p :: rest) false = p :: t := by
+  simp only [cutLoop]
+  split
+  · exact ⟨_, rfl⟩
+  · exact ⟨_, rfl⟩
+
+theorem cutLoop_nonempty (cut : Rat) (l : List Peak) (b : Bool) (hl : l ≠ [])
+    (h : (∃ p ∈ l, cut ≤ p.int) ∨ b = false) : cutLoop cut l b ≠ [] := by
+  rcases h with ⟨p, hp, hc⟩ | rfl
+  · exact List.ne_nil_of_mem (cutLoop_keeps cut l b p hp hc)
+  · cases l with
+    | nil => exact absurd rfl hl
+    | cons p rest =>
+      obtain ⟨t, ht⟩ := cutLoop_head cut p rest
+      rw [ht]; exact List.cons_ne_nil _ _
+
+/-- what the loop omits, from `hasReal = false`: the sub-`cut` peaks after the first real one -/
+theorem cutLoop_total (cut : Rat) (l : List Peak) :
+    total (cutLoop cut l false) =
+      total l - total ((l.dropWhile (fun p => decide (p.int < cut))).filter (fun p => decide (p.int < cut))) := by
+  have filt : ∀ m : List Peak,
+      total (m.filter (fun p => decide (cut ≤ p.int))) =
+        total m - total (m.filter (fun p => decide (p.int < cut))) := by
+    intro m
+    induction m with
+    | nil => simp [total, intensities]
+    | cons q m ih =>
+      simp only [total, intensities] at ih ⊢
+      by_cases h : q.int < cut
+      · have h' : ¬ cut ≤ q.int := not_le.2 h
+        simp only [List.filter_cons, h, h', decide_true, decide_false, if_true, List.map_cons,
+          List.sum_cons, Bool.false_eq_true, if_false, ih]
+        ring
+      · have h' : cut ≤ q.int := not_lt.1 h
+        simp only [List.filter_cons, h, h', decide_true, decide_false, if_true, List.map_cons,
+          List.sum_cons, Bool.false_eq_true, if_false, ih]
+        ring
+  rw [cutLoop_leading]
+  have split : total l = total (l.takeWhile (fun p => decide (p.int < cut))) +
+      total (l.dropWhile (fun p => decide (p.int < cut))) := by
+    conv_lhs => rw [← List.takeWhile_append_dropWhile (p := fun p => decide (p.int < cut)) (l := l)]
+    simp only [total, intensities, List.map_append, List.sum_append]
+  rw [split]
+  simp only [total, intensities, List.map_append, List.sum_append] at filt ⊢
+  rw [filt]
+  ring
+
+/-! ### 3. the sort -/
+
+theorem insertByMz_perm (x : Peak) (l : List Peak) : (insertByMz x l).Perm (x :: l) := by
+  induction l with
+  | nil => exact List.Perm.refl _
+  | cons y ys ih =>
+    simp only [insertByMz]
+    split
+    · exact List.Perm.refl _
+    · exact ((ih.cons y).trans (List.Perm.swap x y ys))
+
+theorem insertByMz_sorted (x : Peak) (l : List Peak) (h : l.Pairwise (fun a b => a.mz ≤ b.mz)) :
+    (insertByMz x l).Pairwise (fun a b => a.mz ≤ b.mz) := by
+  induction l with
+  | nil => exact List.pairwise_singleton _ _
+  | cons y ys ih =>
+    simp only [insertByMz]
+    rcases List.pairwise_cons.1 h with ⟨hy, hys⟩
+    split
+    · rename_i hlt
+      refine List.pairwise_cons.2 ⟨?_, h⟩
+      intro a ha
+      rcases List.mem_cons.1 ha with rfl | ha
+      · exact le_of_lt hlt
+      · exact le_trans (le_of_lt hlt) (hy a ha)
+    · rename_i hnlt
+      refine List.pairwise_cons.2 ⟨?_, ih hys⟩
+      intro a ha
+      rcases List.mem_cons.1 ((insertByMz_perm x ys).subset ha) with rfl | ha
+      · exact not_lt.1 hnlt
+      · exact hy a ha
+
+/-- inserting something not smaller than everything present appends it (stability) -/
+theorem insertByMz_append (x : Peak) (l : List Peak) (h : ∀ y ∈ l, y.mz ≤ x.mz) :
+    insertByMz x l = l ++ [x] := by
+  induction l with
+  | nil => rfl
+  | cons y ys ih =>
+    simp only [insertByMz]
+    have : ¬ x.mz < y.mz := not_lt.2 (h y List.mem_cons_self)
+    simp only [this, if_false, List.cons_append]
+    rw [ih (fun z hz => h z (List.mem_cons_of_mem _ hz))]
+
+theorem sortFold_perm (l acc : List Peak) :
+    (l.foldl (fun acc x => insertByMz x acc) acc).Perm (acc ++ l) := by
+  induction l generalizing acc with
+  | nil => simp
+  | cons x xs ih =>
+    simp only [List.foldl_cons]
+    refine (ih _).trans ?_
+    refine ((insertByMz_perm x acc).append_right xs).trans ?_
+    exact (List.perm_middle (l₁ := acc) (l₂ := xs) (a := x)).symm
+
+theorem sortFold_sorted (l acc : List Peak) (h : acc.Pairwise (fun a b => a.mz ≤ b.mz)) :
+    (l.foldl (fun acc x => insertByMz x acc) acc).Pairwise (fun a b => a.mz ≤ b.mz) := by
+  induction l generalizing acc with
+  | nil => exact h
+  | cons x xs ih =>
+    simp only [List.foldl_cons]
+    exact ih _ (insertByMz_sorted x acc h)
+
+theorem sortFold_id (l acc : List Peak) (h : (acc ++ l).Pairwise (fun a b => a.mz ≤ b.mz)) :
+    l.foldl (fun acc x => insertByMz x acc) acc = acc ++ l := by
+  induction l generalizing acc with
+  | nil => simp
+  | cons x xs ih =>
+    simp only [List.foldl_cons]
+    have hx : ∀ y ∈ acc, y.mz ≤ x.mz := by
+      intro y hy
+      exact (List.pairwise_append.1 h).2.2 y hy x List.mem_cons_self
+    rw [insertByMz_append x acc hx, ih]
+    · simp
+    · simpa using h
+
+theorem sortByMz_perm (l : List Peak) : (sortByMz l).Perm l := by
+  simpa [sortByMz] using sortFold_perm l []
+
+theorem sortByMz_sorted (l : List Peak) : (sortByMz l).Pairwise (fun a b => a.mz ≤ b.mz) :=
+  sortFold_sorted l [] List.Pairwise.nil
+
+theorem sortByMz_length (l : List Peak) : (sortByMz l).length = l.length := (sortByMz_perm l).length_eq
+
+theorem sortByMz_mem (l : List Peak) (p : Peak) : p ∈ sortByMz l ↔ p ∈ l := (sortByMz_perm l).mem_iff
+
+theorem sortByMz_ne_nil (l : List Peak) (h : l ≠ []) : sortByMz l ≠ [] := by
+  intro e
+  have := sortByMz_length l
+  rw [e] at this
+  exact h (List.length_eq_zero_iff.1 this.symm)
+
+/-- the sort is the identity on an input that is already (weakly) increasing in m/z -/
+theorem sortByMz_id_of_sorted (l : List Peak) (h : l.Pairwise (fun a b => a.mz ≤ b.mz)) : sortByMz l = l := by
+  simpa [sortByMz] using sortFold_id l [] (by simpa using h)
+
+/-- … in particular on a strictly increasing one -/
+theorem sortByMz_id (l : List Peak) (h : l.Pairwise (fun a b => a.mz < b.mz)) : sortByMz l = l :=
+  sortByMz_id_of_sorted l (h.imp (fun hab => le_of_lt hab))
+
+theorem insertByMz_total (x : Peak) (l : List Peak) : total (insertByMz x l) = x.int + total l := by
+  induction l with
+  | nil => simp [insertByMz, total, intensities]
+  | cons y ys ih =>
+    simp only [insertByMz]
+    split
+    · simp [total, intensities]
+    · simp only [total, intensities, List.map_cons, List.sum_cons] at ih ⊢
+      rw [ih]; ring
+
+theorem sortFold_total (l acc : List Peak) :
+    total (l.foldl (fun acc x => insertByMz x acc) acc) = total acc + total l := by
+  induction l generalizing acc with
+  | nil => simp [total, intensities]
+  | cons x xs ih =>
+    simp only [List.foldl_cons]
+    rw [ih, insertByMz_total]
+    simp only [total, intensities, List.map_cons, List.sum_cons]
+    ring
+
+theorem sortByMz_total (l : List Peak) : total (sortByMz l) = total l := by
+  have := sortFold_total l []
+  simpa [sortByMz, total, intensities] using this
+
+/-! ### 4. the output -/
+
+theorem Res.bind_eq_ok {α β} (r : Res α) (f : α → Res β) (b : β) (h : r.bind f = .ok b) :
+    ∃ a, r = .ok a ∧ f a = .ok b := by
+  cases r with
+  | ok a => exact ⟨a, rfl, h⟩
+  | err => cases h
+  | panic => cases h
+
+theorem mapRes_length {α β} (f : α → Res β) (l : List α) (ys : List β) (h : mapRes f l = .ok ys) :
+    ys.length = l.length := by
+  induction l generalizing ys with
+  | nil => simp only [mapRes] at h; cases h; rfl
+  | cons x xs ih =>
+    simp only [mapRes] at h
+    obtain ⟨y, _, h⟩ := Res.bind_eq_ok _ _ _ h
+    obtain ⟨ys', h', h⟩ := Res.bind_eq_ok _ _ _ h
+    cases h
+    simp [ih ys' h']
+
+theorem updateEsp_length (ps : DVec) (order : Int) (fuel : Nat) (esp : DVec)
+    (h1 : esp.length ≤ ps.length) (h2 : ps.length - esp.length ≤ fuel) :
+    (updateEsp ps order fuel esp).length = ps.length := by
+  induction fuel generalizing esp with
+  | zero => simp only [updateEsp]; omega
+  | succ fuel ih =>
+    simp only [updateEsp]
+    split
+    · apply ih
+      · simp only [List.length_append, List.length_singleton]; omega
+      · simp only [List.length_append, List.length_singleton]; omega
+    · omega
+
+theorem espOfPs_length (ps : DVec) (V : Int) : (espOfPs ps V).length = ps.length := by
+  unfold espOfPs PolyParams.newton
+  simp only [List.length_nil, Nat.not_lt_zero, if_false, Nat.sub_zero]
+  split
+  · exact updateEsp_length ps V ps.length [] (Nat.zero_le _) (by simp)
+  · simp only [List.length_nil]; omega
+
+theorem probabilityVector_length (consts : IsoConstants) (c : BComp) (order : Nat) (V : Int) (base : Rat)
+    (prob : DVec) (h : probabilityVector consts c order V base = .ok prob) : prob.length = order + 1 := by
+  unfold probabilityVector at h
+  obtain ⟨phis, hphis, h⟩ := Res.bind_eq_ok _ _ _ h
+  have hl := mapRes_length _ _ _ hphis
+  cases h
+  simp [espOfPs_length, hl]
+
+theorem centerMassVector_length (consts : IsoConstants) (c : BComp) (order : Nat) (V : Int) (base one : Rat)
+    (prob cm : DVec) (h : centerMassVector consts c order V base one prob = .ok cm) :
+    cm.length = order + 1 := by
+  unfold centerMassVector at h
+  obtain ⟨polys, _, h⟩ := Res.bind_eq_ok _ _ _ h
+  have hl := mapRes_length _ _ _ h
+  simpa using hl
+
+theorem zip_map_int (cm prob : DVec) (F : Rat → Rat) (tot : Rat) (h : cm.length = prob.length) :
+    intensities ((cm.zip prob).map fun (m, p) => ({ mz := F m, int := p / tot } : Peak)) =
+      prob.map (· / tot) := by
+  induction cm generalizing prob with
+  | nil =>
+    cases prob with
+    | nil => rfl
+    | cons _ _ => simp at h
+  | cons a as ih =>
+    cases prob with
+    | nil => simp at h
+    | cons b bs =>
+      simp only [List.length_cons, Nat.add_right_cancel_iff] at h
+      have := ih bs h
+      simp only [intensities, List.zip_cons_cons, List.map_cons, List.map_map] at this ⊢
+      rw [this]
+
+/-- anatomy of a successful `rawVariants`: one peak per variant `0..=order`, intensity `prob[i] / Σ prob` -/
+theorem rawVariants_ok (K : BrainConsts) (consts : IsoConstants) (c : BComp) (order : Nat) (z : Int)
+    (carrier : Rat) (raw : List Peak) (h : rawVariants K consts c order z carrier = .ok raw) :
+    ∃ prob, probabilityVector consts c order (maxVariants c) (baseIntensity c K.one) = .ok prob ∧
+      prob.length = order + 1 ∧ raw.length = order + 1 ∧
+      intensities raw = prob.map (· / prob.sum) := by
+  unfold rawVariants at h
+  obtain ⟨prob, hprob, h⟩ := Res.bind_eq_ok _ _ _ h
+  obtain ⟨cm, hcm, h⟩ := Res.bind_eq_ok _ _ _ h
+  have hpl := probabilityVector_length _ _ _ _ _ _ hprob
+  have hcl := centerMassVector_length _ _ _ _ _ _ _ _ hcm
+  have htake : (cm.zip prob).take (order + 1) = cm.zip prob := by
+    apply List.take_of_length_le
+    simp [hpl, hcl]
+  refine ⟨prob, hprob, hpl, ?_, ?_⟩
+  · cases h
+    simp [htake, hpl, hcl]
+  · cases h
+    rw [htake]
+    exact zip_map_int cm prob (fun m => chargedMz m z carrier) prob.sum (by omega)
+
+theorem rawVariants_length (K : BrainConsts) (consts : IsoConstants) (c : BComp) (order : Nat) (z : Int)
+    (carrier : Rat) (raw : List Peak) (h : rawVariants K consts c order z carrier = .ok raw) :
+    raw.length = order + 1 := by
+  obtain ⟨_, _, _, hl, _⟩ := rawVariants_ok K consts c order z carrier raw h
+  exact hl
+
+theorem rawVariants_ne_nil (K : BrainConsts) (consts : IsoConstants) (c : BComp) (order : Nat) (z : Int)
+    (carrier : Rat) (raw : List Peak) (h : rawVariants K consts c order z carrier = .ok raw) : raw ≠ [] := by
+  intro e
+  have := rawVariants_length K consts c order z carrier raw h
+  rw [e] at this
+  simp at this
+
+/-- conversely a successful `variantsWith` comes from a successful `rawVariants` -/
+theorem variantsWith_ok_iff (K : BrainConsts) (consts : IsoConstants) (c : BComp) (order : Nat) (z : Int)
+    (carrier : Rat) (out : List Peak) :
+    variantsWith K consts c order z carrier = .ok out ↔
+      ∃ raw, rawVariants K consts c order z carrier = .ok raw ∧ out = sortByMz (cutLoop K.cut raw false) := by
+  constructor
+  · intro h
+    unfold variantsWith at h
+    obtain ⟨raw, hraw, h⟩ := Res.bind_eq_ok _ _ _ h
+    cases h
+    exact ⟨raw, hraw, rfl⟩
+  · rintro ⟨raw, hraw, rfl⟩
+    unfold variantsWith
+    rw [hraw]; rfl
+
+section Output
+variable (K : BrainConsts) (consts : IsoConstants) (c : BComp) (order : Nat) (z : Int) (carrier : Rat)
+  (raw : List Peak) (h : rawVariants K consts c order z carrier = .ok raw)
+include h
+
+/-- the output is the sorted cut of the raw variants -/
+theorem variantsWith_eq :
+    variantsWith K consts c order z carrier = .ok (sortByMz (cutLoop K.cut raw false)) := by
+  unfold variantsWith
+  rw [h]; rfl
+
+
+/-- the output is never empty -/
+theorem variantsWith_nonempty :
+    ∃ out, variantsWith K consts c order z carrier = .ok out ∧ out ≠ [] :=
+  ⟨_, variantsWith_eq K consts c order z carrier raw h,
+    sortByMz_ne_nil _ (cutLoop_nonempty K.cut raw false
+      (rawVariants_ne_nil K consts c order z carrier raw h) (Or.inr rfl))⟩
+
+/-- **shape of the coarse pattern**: the output is non-empty, sorted by m/z, has at most `order + 1`
+    peaks, every peak of it is a raw variant, every raw variant with share `≥ cut` is in it,
+    and the very first variant (the monoisotopic one) is always in it. -/
+theorem variantsWith_shape :
+    ∃ out, variantsWith K consts c order z carrier = .ok out ∧
+      out = sortByMz (cutLoop K.cut raw false) ∧
+      out ≠ [] ∧
+      out.Pairwise (fun a b => a.mz ≤ b.mz) ∧
+      out.length ≤ order + 1 ∧
+      raw.length = order + 1 ∧
+      (∀ p ∈ out, p ∈ raw) ∧
+      (∀ p ∈ raw, K.cut ≤ p.int → p ∈ out) ∧
+      (∀ p, raw.head? = some p → p ∈ out) := by
+  have hlen := rawVariants_length K consts c order z carrier raw h
+  have hne := rawVariants_ne_nil K consts c order z carrier raw h
+  refine ⟨_, variantsWith_eq K consts c order z carrier raw h, rfl, ?_, sortByMz_sorted _, ?_, hlen, ?_, ?_, ?_⟩
+  · exact sortByMz_ne_nil _ (cutLoop_nonempty K.cut raw false hne (Or.inr rfl))
+  · rw [sortByMz_length, ← hlen]; exact cutLoop_length_le _ _ _
+  · intro p hp
+    exact cutLoop_subset K.cut raw false p ((sortByMz_mem _ p).1 hp)
+  · intro p hp hc
+    exact (sortByMz_mem _ p).2 (cutLoop_keeps K.cut raw false p hp hc)
+  · intro p hp
+    cases raw with
+    | nil => cases hp
+    | cons q rest =>
+      simp only [List.head?_cons, Option.some.injEq] at hp
+      subst hp
+      obtain ⟨t, ht⟩ := cutLoop_head K.cut q rest
+      rw [sortByMz_mem, ht]
+      exact List.mem_cons_self
+
+/-- when no variant falls below the cut, the output is a permutation of all `order + 1` variants -/
+theorem variantsWith_all (hall : ∀ p ∈ raw, K.cut ≤ p.int) :
+    ∃ out, variantsWith K consts c order z carrier = .ok out ∧ out.Perm raw ∧ out.length = order + 1 := by
+  have hcut : cutLoop K.cut raw false = raw := by
+    rw [cutLoop_leading]
+    have htw : raw.takeWhile (fun p => decide (p.int < K.cut)) = [] := by
+      cases raw with
+      | nil => rfl
+      | cons q rest =>
+        have : ¬ q.int < K.cut := not_lt.2 (hall q List.mem_cons_self)
+        simp [this]
+    have hdw : raw.dropWhile (fun p => decide (p.int < K.cut)) = raw := by
+      have := List.takeWhile_append_dropWhile (p := fun p : Peak => decide (p.int < K.cut)) (l := raw)
+      rw [htw] at this
+      simpa using this
+    rw [htw, hdw, List.nil_append, List.filter_eq_self]
+    intro p hp
+    simpa using hall p hp
+  refine ⟨_, variantsWith_eq K consts c order z carrier raw h, ?_, ?_⟩
+  · rw [hcut]; exact sortByMz_perm raw
+  · rw [hcut, sortByMz_length]; exact rawVariants_length K consts c order z carrier raw h
+
+/-! ### 5. intensities -/
+
+omit h in
+theorem sum_div_self (prob : DVec) (hs : prob.sum ≠ 0) : (prob.map (· / prob.sum)).sum = 1 := by
+  rw [sum_map_div]
+  exact div_self hs
+
+/-- the raw intensities sum to 1 when the probability vector does not sum to 0 -/
+theorem rawVariants_total (prob : DVec)
+    (hprob : probabilityVector consts c order (maxVariants c) (baseIntensity c K.one) = .ok prob)
+    (hs : prob.sum ≠ 0) : total raw = 1 := by
+  obtain ⟨prob', hprob', _, _, hint⟩ := rawVariants_ok K consts c order z carrier raw h
+  rw [hprob] at hprob'
+  cases hprob'
+  unfold total
+  rw [hint]
+  exact sum_div_self prob hs
+
+/-- the returned intensities sum to `1 −` the share of the omitted variants (the sub-`cut` ones after
+    the first variant with share `≥ cut`) -/
+theorem variantsWith_total (prob : DVec)
+    (hprob : probabilityVector consts c order (maxVariants c) (baseIntensity c K.one) = .ok prob)
+    (hs : prob.sum ≠ 0) :
+    ∃ out, variantsWith K consts c order z carrier = .ok out ∧
+      total out = 1 - total ((raw.dropWhile (fun p => decide (p.int < K.cut))).filter
+                              (fun p => decide (p.int < K.cut))) := by
+  refine ⟨_, variantsWith_eq K consts c order z carrier raw h, ?_⟩
+  rw [sortByMz_total, cutLoop_total, rawVariants_total K consts c order z carrier raw h prob hprob hs]
+
+end Output
+
+/-! ### the stateless entry point -/
+
+/-- anatomy of a successful `brainVariants` call -/
+theorem brainVariants_ok (K : BrainConsts) (c : BComp) (req : PeakReq) (z : Int) (carrier : Rat) (out : List Peak)
+    (h : brainVariants K c req z carrier = .ok out) :
+    ∃ consts raw, populate K c (resolveOrder K c req) = .ok consts ∧
+      rawVariants K consts c (resolveOrder K c req).toNat z carrier = .ok raw ∧
+      out = sortByMz (cutLoop K.cut raw false) := by
+  unfold brainVariants at h
+  obtain ⟨consts, hc, h⟩ := Res.bind_eq_ok _ _ _ h
+  obtain ⟨raw, hraw, rfl⟩ := (variantsWith_ok_iff K consts c _ z carrier out).1 h
+  exact ⟨consts, raw, hc, hraw, rfl⟩
+
+/-- **C09, shape**: whatever is requested, a successful call returns a non-empty list, sorted by m/z,
+    of at most `resolveOrder + 1 ≤ V + 1` peaks -/
+theorem brainVariants_shape (K : BrainConsts) (c : BComp) (hV : 0 ≤ maxVariants c) (req : PeakReq) (z : Int)
+    (carrier : Rat) (out : List Peak) (h : brainVariants K c req z carrier = .ok out) :
+    out ≠ [] ∧ out.Pairwise (fun a b => a.mz ≤ b.mz) ∧
+      (out.length : Int) ≤ resolveOrder K c req + 1 ∧ (out.length : Int) ≤ maxVariants c + 1 := by
+  obtain ⟨consts, raw, _, hraw, rfl⟩ := brainVariants_ok K c req z carrier out h
+  obtain ⟨out', ho, rfl, hne, hs, hl, _⟩ := variantsWith_shape K consts c _ z carrier raw hraw
+  have hb := resolve_bounds K c hV req
+  have ht := resolve_toNat K c hV req
+  refine ⟨hne, hs, ?_, ?_⟩ <;> omega
+
+/-! ### 6. non-vacuity: concrete resolutions -/
+
+namespace C09Ex
+
+/-- a two-isotope toy element: most abundant isotope 12 (mass 12000, 99 %), isotope 13 (shift 1) -/
+def elemX : Elem :=
+  { tkey := [88], sym := [88],
+    isos := [⟨12, 12000, 9900, 6, 0⟩, ⟨13, 13003, 100, 7, 1⟩],
+    mostIso := 12, mostMass := 12000, minShift := 0, maxShift := 1, elemNum := 6 }
+
+def K0 : BrainConsts :=
+  { one := 1000, lambdaFactor := 1800, maxIter := 255, guessCap := 20, guessFraction := 999 / 1000, cut := 1 / 1000000 }
+
+/-- `X10`: ten variants beyond the monoisotopic one -/
+def comp10 : BComp := [(elemX, 10)]
+/-- `X2` -/
+def comp2 : BComp := [(elemX, 2)]
+
+example : maxVariants comp10 = 10 := by decide
+example : resolveOrder K0 comp10 (.fixed 1) = 0 := by decide
+example : resolveOrder K0 comp10 (.fixed 5) = 4 := by decide
+example : resolveOrder K0 comp2 (.fixed 5) = 2 := by decide                   -- capped by V
+example : resolveOrder K0 comp10 (.fixed 0) = 0 := by decide
+example : resolveOrder K0 comp10 (.fixed (-1)) = 0 := by decide
+example : resolveOrder K0 comp10 (.fixed (-2147483648)) = 0 := by decide      -- i32::MIN
+example : resolveOrder K0 comp10 (.fixed 2147483647) = 10 := by decide        -- i32::MAX
+example : resolveOrder K0 comp10 (.fixed 5) = min 4 (maxVariants comp10) := by decide
+example : resolveOrder K0 comp10 (.fixed 5) = min (5 - 1) (maxVariants comp10) :=
+  resolve_fixed K0 comp10 5 (by decide) (by decide)
+example : 0 ≤ resolveOrder K0 comp10 .guess ∧ resolveOrder K0 comp10 .guess ≤ 10 :=
+  resolve_bounds K0 comp10 (by decide) .guess
+
+-- requests that go through the Poisson estimate (exact rational arithmetic, checked by the kernel)
+example : poissonN (monoMassOf comp10 K0.one) K0.lambdaFactor K0.guessFraction K0.maxIter = 3 := by decide +kernel
+example : resolveOrder K0 comp10 .guess = 3 := by decide +kernel
+example : resolveOrder K0 comp2 .guess = 2 := by decide +kernel               -- capped by V
+example : resolveOrder K0 comp10 (.percent (999 / 1000)) = 2 := by decide +kernel
+example : resolveOrder K0 comp10 (.percent (1 / 2)) = 0 := by decide +kernel
+example : resolveOrder K0 comp10 .guess =
+    min (min (poissonN (monoMassOf comp10 K0.one) K0.lambdaFactor K0.guessFraction K0.maxIter : Int) K0.guessCap)
+      (maxVariants comp10) :=
+  resolve_guess K0 comp10 (by decide) (by decide)
+
+-- the cut loop and the sort on a hand-made list: the leading sub-cut peak is kept, the trailing one is not
+def pk (m i : Rat) : Peak := ⟨m, i⟩
+example : cutLoop (1 / 10) [pk 1 (1 / 100), pk 2 (1 / 2), pk 3 (1 / 100), pk 4 (1 / 5)] false =
+    [pk 1 (1 / 100), pk 2 (1 / 2), pk 4 (1 / 5)] := by decide +kernel
+example : cutLoop (1 / 10) [pk 1 (1 / 100), pk 2 (1 / 200)] false = [pk 1 (1 / 100), pk 2 (1 / 200)] := by
+  decide +kernel
+example : sortByMz [pk 3 1, pk 1 2, pk 2 3, pk 1 4] = [pk 1 2, pk 1 4, pk 2 3, pk 3 1] := by decide +kernel
+
+end C09Ex
+
 end Chem
